@@ -356,8 +356,9 @@ class MessageAssembler:
                     'continuation'
                 )
                 self.reset()
-                self.packet_count = 1
 
+            # This is the first packet of a new message, whatever came before
+            self.packet_count = 1
             self.transaction_label = transaction_label
             self.signal_identifier = SignalIdentifier(pdu[1] & 0x3F)
             self.message_type = message_type
